@@ -17,6 +17,7 @@ type goroutine struct {
 	ready func() bool // nil when running
 	done  bool
 	what  string
+	fresh bool // runnable without having blocked on a condition (new or yielded)
 }
 
 type scheduler struct {
@@ -41,7 +42,7 @@ func always() bool { return true }
 
 // spawn registers a new goroutine running fn; the caller keeps running.
 func (s *scheduler) spawn(fn func()) {
-	g := &goroutine{id: len(s.gs), wake: make(chan struct{}, 1), ready: always}
+	g := &goroutine{id: len(s.gs), wake: make(chan struct{}, 1), ready: always, fresh: true}
 	s.gs = append(s.gs, g)
 	s.wg.Add(1)
 	go func() {
@@ -79,6 +80,15 @@ func (s *scheduler) pick(from *goroutine) *goroutine {
 			start = i
 		}
 	}
+	// first a goroutine that was blocked and whose condition now holds (a consumer
+	// picks up what was just produced: keeps early-exit loops linear), then
+	// goroutines that have not run yet / yielded, in spawn order
+	for k := 1; k <= n; k++ {
+		g := s.gs[(start+k)%n]
+		if !g.done && g.ready != nil && !g.fresh && g.ready() {
+			return g
+		}
+	}
 	for k := 1; k <= n; k++ {
 		g := s.gs[(start+k)%n]
 		if !g.done && g.ready != nil && g.ready() {
@@ -95,6 +105,7 @@ func (s *scheduler) block(ready func() bool, what string) {
 		return
 	}
 	cur.ready = ready
+	cur.fresh = false
 	cur.what = what
 	next := s.pick(cur)
 	if next == nil {
@@ -120,6 +131,7 @@ func (s *scheduler) block(ready func() bool, what string) {
 func (s *scheduler) yield() bool {
 	cur := s.cur
 	cur.ready = always
+	cur.fresh = true
 	next := s.pick(cur)
 	if next == nil || next == cur {
 		cur.ready = nil
